@@ -539,6 +539,9 @@ func (ex *Exec) mapFind(m *MapV, k Value) *mapEntry {
 	if m == nil {
 		return nil
 	}
+	if ex.race != nil {
+		ex.raceRecord(m, false)
+	}
 	ck, conc := ex.canonKey(k)
 	if conc && m.nsym == 0 {
 		return m.index[ck]
@@ -558,6 +561,9 @@ func (ex *Exec) mapFind(m *MapV, k Value) *mapEntry {
 }
 
 func (ex *Exec) mapSet(m *MapV, k, v Value) {
+	if ex.race != nil {
+		ex.raceRecord(m, true)
+	}
 	if e := ex.mapFind(m, k); e != nil {
 		e.v = v
 		return
@@ -573,6 +579,9 @@ func (ex *Exec) mapSet(m *MapV, k, v Value) {
 }
 
 func (ex *Exec) mapDelete(m *MapV, k Value) {
+	if ex.race != nil {
+		ex.raceRecord(m, true)
+	}
 	e := ex.mapFind(m, k)
 	if e == nil {
 		return
@@ -620,6 +629,9 @@ func (ex *Exec) lookup(x *ssa.Lookup, mv Value, k Value) Value {
 func (ex *Exec) rangeIter(v Value) Value {
 	switch x := v.(type) {
 	case *MapV:
+		if ex.race != nil && x != nil {
+			ex.raceRecord(x, false)
+		}
 		it := &Iter{m: x}
 		if x != nil {
 			it.keys = append(it.keys, x.entries...)
@@ -895,6 +907,11 @@ func (ex *Exec) appendSlice(sv, tv Value, site ssa.CallInstruction) Value {
 			nc = 4
 		}
 		b := &Backing{cells: make([]Value, nc)}
+		if ex.race != nil {
+			for i := range b.cells {
+				ex.race.fresh[&b.cells[i]] = ex.race.role
+			}
+		}
 		for i := 0; i < s.len; i++ {
 			b.cells[i] = copyVal(s.b.cells[s.off+i])
 		}
